@@ -47,8 +47,33 @@ class _Canon(ast.NodeTransformer):
       `if X: A else: <ends in raise/return/break/continue>` -> `if not X: <...>` followed by A (guard-clause form),
       and symmetrically when only the body terminates."""
 
+    def visit_BoolOp(self, n):
+        # constants fold: `False or X` -> X, `True or X` -> True, `True and X` -> X, `False and X` -> False
+        self.generic_visit(n)
+        is_or = isinstance(n.op, ast.Or)
+        vals = []
+        for v in n.values:
+            if isinstance(v, ast.Constant) and isinstance(v.value, bool):
+                if v.value == is_or:          # absorbing element: everything after it is never evaluated
+                    vals.append(v)
+                    break
+                continue                      # neutral element
+            vals.append(v)
+        if not vals:
+            return ast.copy_location(ast.Constant(value=not is_or), n)
+        if isinstance(vals[-1], ast.Constant) and isinstance(vals[-1].value, bool) and vals[-1].value == is_or and len(vals) > 1:
+            # `X or True` still evaluates X first; keep the operands but the value is known only if X has no effect: leave as is
+            n.values = vals
+            return n
+        if len(vals) == 1:
+            return vals[0]
+        n.values = vals
+        return n
+
     def visit_UnaryOp(self, n):
         self.generic_visit(n)
+        if isinstance(n.op, ast.Not) and isinstance(n.operand, ast.Constant) and isinstance(n.operand.value, bool):
+            return ast.copy_location(ast.Constant(value=not n.operand.value), n)
         if isinstance(n.op, ast.Not) and isinstance(n.operand, ast.UnaryOp) and isinstance(n.operand.op, ast.Not):
             return n.operand.operand
         if isinstance(n.op, ast.Not) and isinstance(n.operand, ast.Compare) and len(n.operand.ops) == 1 and type(n.operand.ops[0]) in _COMPLEMENT:
@@ -86,6 +111,8 @@ class _Canon(ast.NodeTransformer):
         return new
 
     def _canon_if(self, n: ast.If):
+        if isinstance(n.test, ast.Constant) and isinstance(n.test.value, bool):
+            return list(n.body) if n.test.value else list(n.orelse)  # a decided conditional is its live branch
         if n.orelse and isinstance(n.test, ast.UnaryOp) and isinstance(n.test.op, ast.Not):
             n.test, n.body, n.orelse = n.test.operand, n.orelse, n.body
         if n.orelse and all(isinstance(x, ast.Pass) for x in n.body):
